@@ -38,6 +38,10 @@ try:
     from . import spec_rules as SP
 except ImportError:  # pragma: no cover
     SP = None
+try:
+    from . import index_rules as IR
+except ImportError:  # pragma: no cover
+    IR = None
 
 
 def _get(mod, name):
@@ -78,6 +82,9 @@ RULES = {
     "R33": _get(DR, "r33_derivative_formula"),
     "R34": _get(SP, "r34_documented_formulas"),
     "R35": _get(SP, "r35_pointwise_definitions"),
+    "R36": _get(IR, "r36_matmul_index_maps"),
+    "R37": _get(IR, "r37_conv_index_maps"),
+    "R38": _get(IR, "r38_matmul_shapes"),
 }
 
 # property -> rules (DESIGN.md section 4)
@@ -85,6 +92,8 @@ PROPERTY_RULES = {
     "C01": ["R9", "R8", "R5", "R27", "R6", "R24", "R11", "R25", "R23", "R26"],
     "C02": ["R12", "R13", "R15", "R9", "R33", "R29", "R31", "R30", "R32"],
     "C03": ["R11", "R21"],
+    "C05": ["R36", "R38"],
+    "C06": ["R37", "R30"],
     "C07": ["R35", "R16"],
     "C08": ["R1", "R2", "R3", "R4", "R7"],
     "C09": ["R8", "R9", "R10", "R5"],
@@ -124,6 +133,15 @@ EXPLANATION = {
     "C03": "Clause-level static verdict: shape typestate (R11) proves that every value entering a pending-delta or gradient slot "
            "has been reduced to the owner's dimensions, for the first and every later contribution; R21 adds that the optimizer "
            "builds parameters from the parameter's own dimensions. Does NOT decide the summed values.",
+    "C05": "Clause-level static verdict for operands of rank >= 2 inside one slice: for each of the four transposition assignments the kernel's "
+           "index polynomials are the row-major positions of op(A)[r,k], op(B)[k,j] and C[r,j] and the dot product is ADDED onto the (pre-set) "
+           "result slice (R36); rows, cols and inner length are read from the right dimensions, the kernel receives them and the operand / flag "
+           "pairs in the right order, and the compatibility assertion compares the inner dimensions of op(A) and op(B) (R38). Does NOT decide "
+           "the walk over leading dimensions (sliced_op), the rank-1 special forms, the broadcast of the additive term, rounding.",
+    "C06": "Clause-level static verdict for one image: im2col reads image[k, r*sr+m, c*sc+n] into row r*cols+c, column (k*frows+m)*fcols+n of the "
+           "unrolled matrix and the output transposition maps [windows, filters] to [filters, windows] (index polynomials in an exact algebra, "
+           "R37); the index arithmetic is axis-consistent, the window count is (extent - filter extent) / stride + 1 and is the same formula in "
+           "all routines (R30). Does NOT decide batching (the walk over leading dimensions), the composition with matmul / reshape, rounding.",
     "C07": "Clause-level static verdict: the forward maps of negation, scaling, powf, ln, exp, reciprocal, relu and sigmoid - read from "
            "the source and compared in an exact rational-function algebra - are exactly their scalar definitions and the results are built "
            "with the operand's own dimensions; softmax is exp divided by sum(exp, 1); sum_all is the sum of the values; reshape passes the "
